@@ -89,6 +89,11 @@ CHECKS = [
         "Identity monad instance only (no second lawful instance yet); no host operations inside the block; data types are transparent global lets (a def-sealed type inside a monadic block is rejected by design: 'Cannot inline sealed abstract type').",
         "TLA+ reference semantics model checked by TLC; spec->code replay of every enumerated body, plain vs @[monadic]-at-identity in one program",
         "DESIGN.md §4 C20"),
+    chk("C16", "model_checking",
+        "Every command (check, run, fmt --check, build -t zir|zasm|asm|llvm) is run on every corpus file (a seeded selection of repository sources - quick 14, thorough 120 -, a program with five independent type errors, a block with 24 independent contributions in shuffled textual order) in 5 (thorough 25) fresh processes, whose SipHash keys and addresses differ by construction; the trace of (command, file, exit status, sha256 of stdout, sha256 of stderr) is validated by TLC against spec/ZyDeterminismTrace.tla (all observations of one command and file equal). The design-level half - every hash-ordered iteration that reaches an output is followed by a sort on a source-order key, so all iteration orders give one result - is ZyGraph's OrderConfluent invariant, model checked in the same command for all 512 digraphs on 3 nodes under all 6 orders.",
+        "Finitely many processes per input; programs that read stdin, time or random_int are excluded by construction. The pinned tree violated the property (F7) and was repaired by a fix: commit.",
+        "N fresh processes per command and file, digests validated by a TLC trace specification; TLA+ confluence check of the dependency-ordering model under nondeterministic iteration order",
+        "DESIGN.md §4 C16"),
 ]
 
 PENDING_REASON = "check not built yet (planned, see DESIGN.md)"
